@@ -69,6 +69,9 @@ pub struct HopSpec {
     pub nat: Option<NatSpec>,
     /// ICMP code used in destination unreachable responses (target only).
     pub du_code: u8,
+    /// A router that answers with Destination Unreachable instead of Time Exceeded (ICMPv4 code:
+    /// 0 net, 1 host, 13 administratively prohibited; mapped to the ICMPv6 codes 0, 3, 1).
+    pub router_unreach: Option<u8>,
 }
 
 impl HopSpec {
@@ -89,6 +92,7 @@ impl HopSpec {
             ext: Vec::new(),
             nat: None,
             du_code: 3,
+            router_unreach: None,
         }
     }
 }
@@ -887,6 +891,15 @@ impl WorldInner {
             }
         };
         if !is_target {
+            if let Some(code4) = spec.router_unreach {
+                let code6 = match code4 {
+                    0 => 0,
+                    1 => 3,
+                    _ => 1,
+                };
+                let code = if wp.v6 { code6 } else { code4 };
+                return (RespKind::DestUnreach(code), Some(err(3, code4, 1, code6)));
+            }
             return (RespKind::TimeExceeded(0), Some(err(11, 0, 3, 0)));
         }
         match wp.proto {
